@@ -136,7 +136,7 @@ def run_job(job):
                     seg["meta"].append({"step": st})
             elif do == "call":
                 seg["ops"].append({"op": "call", "name": st["name"], "how": st.get("how", "plain"),
-                                   "arg": st.get("arg", 1), "fnarg": st.get("fnarg"),
+                                   "arg": st.get("arg", 1), "fnarg": st.get("fnarg"), "bind": st.get("bind"),
                                    "twin_text": vprogs.module_source(prog, twin=True)})
                 seg["meta"].append({"step": st})
             elif do == "query":
